@@ -23,7 +23,7 @@ pub struct NumericList<'a> {
 impl<'a> NumericList<'a> {
     pub fn new(s: &'a [u8]) -> NumericList<'a> {
         NumericList {
-            tokenizer: crate::parser::tokenizer::Tokenizer::new(s),
+            tokenizer: crate::parser::tokenizer::Tokenizer::new_params(s),
             first: true,
         }
     }
